@@ -11,6 +11,11 @@ def _teeth(ctx):
         txt = f.read()
     if "Invariant C30_Distinct is violated" not in txt:
         raise lib.ToolError("the as_shipped variant of Paths.tla is not rejected by TLC: the model lost its teeth")
+    bad = lib.tlc(ctx, "mc_dump_drops_host", "MC_Paths.tla", "MC_Paths_dump_drops_host.cfg", workers=2, timeout=900,
+                  expect_ok=False, count=False)
+    with open(bad["out"], errors="replace") as f:
+        if "Invariant C30_Distinct is violated" not in f.read():
+            raise lib.ToolError("the dump_drops_host variant of Paths.tla is not rejected by TLC")
 
 
 def _run(ctx):
